@@ -79,6 +79,9 @@ def PitfallFormula(v, d, ny, nz, k, formula_class=CNF):
     if k % 2 != 0:
         raise ValueError("argument 'k' must be even.")
 
+    if nz < 2:
+        raise ValueError("argument 'nz' must be at least 2.")
+
     if (d >= v) or (v * d % 2 == 1):
         raise ValueError(
             "No regular {}-degree graph with {}-vertices exists.\n".format(
